@@ -68,7 +68,7 @@ def run(prop, tier, seed, replay=None):
         cases = [dict(id=0, doc=cs['doc'], src=cs['src'], mainlang=cs['mainlang'], thresh=cs['thresh'])]
     else:
         seen = {}
-        for syms, n, d in ((L1, 5 if q else 6, 2), (L2, 4 if q else 5, 2), (L3, 4 if q else 5, 3), (['a', 'sp', 'flD', 'cb', 'b'], 8 if q else 10, 2)):
+        for syms, n, d in ((L1, 5 if q else 6, 2), (L2, 4 if q else 5, 2), (L3, 4 if q else 5, 3), (['a', 'sp', 'flD', 'cb', 'b'], 8 if q else 10, 2), (['a', 'flE', 'fn', 'cb', 'selF'], 8 if q else 9, 2)):
             cfg = tlc.cfg_text(constants={'Sym': set(syms), 'MaxSym': n, 'MaxDepth': d, 'Free': False, 'Mode': 'normal'},
                                invariants=['SrcIsConc', 'AnchorsInSrc', 'FinalKeeps', 'Dump'])
             r = c.tlc('generator E(%d) over %d symbols' % (n, len(syms)), 'Gen', cfg)
